@@ -21,7 +21,7 @@ from r6 import engine_bodies
 
 META = {
     "level": "other",
-    "explanation": "Dominance and range-check analysis over rustc MIR: (1) the completed `validate(ctx)?` dominates every "
+    "explanation": "(R10.slice) the vectors of the circuit description are never range-sliced with a bound taken from other counters of the circuit. Dominance and range-check analysis over rustc MIR: (1) the completed `validate(ctx)?` dominates every "
                    "engine call in `_mpc`, and `mpc` only builds the Context; (2) in validate's CFG each caller-supplied "
                    "index (p_own, p_eval, each p_out element) flows into a bounds test against the party count whose "
                    "failing edge can only reach `Err`; length / emptiness / circuit validation tests likewise; "
